@@ -572,6 +572,39 @@ func (m member) key() string { return m.coq() }
 
 type markCfg struct{ accept, pass, drop, s0, s1, endpoint uint32 }
 
+// treeFixed: does the tree under test clear the scratch bit before a third positive match block?
+// Probed once from the real renderer (see probeVariant); selects the model variant (c_fixed).
+var treeFixed bool
+
+// probeVariant renders the minimal three-positive-block rule with the real iptables renderer and looks
+// for an unconditional "clear scratch1" rule ahead of the third block.
+func probeVariant() (bool, error) {
+	g, _ := corpusThreeBlocks()
+	mc := markCfgs[0]
+	cfg := rules.Config{
+		IPSetConfigV4: ipsets.NewIPVersionConfig(ipsets.IPFamilyV4, "cali", nil, nil),
+		IPSetConfigV6: ipsets.NewIPVersionConfig(ipsets.IPFamilyV6, "cali", nil, nil),
+		MarkAccept:    mc.accept, MarkPass: mc.pass, MarkDrop: mc.drop,
+		MarkScratch0: mc.s0, MarkScratch1: mc.s1, MarkEndpoint: mc.endpoint,
+	}
+	out := rules.NewRenderer(cfg, false).ProtoRuleToIptablesRules(g.toProto(), 4, rules.RuleOwnerTypePolicy,
+		rules.RuleDirIngress, 0, &types.PolicyID{Name: "default.foo", Kind: "GlobalNetworkPolicy"}, "default", false)
+	clear := fmt.Sprintf("-A C --jump MARK --set-mark 0/%#x", mc.s1)
+	n := 0
+	for k := range out {
+		if iptables.NewIptablesRenderer("").RenderAppend(&out[k], "C", "", &environment.Features{}) == clear {
+			n++
+		}
+	}
+	switch {
+	case n == 0 && len(out) == 11:
+		return false, nil
+	case n == 1 && len(out) == 12:
+		return true, nil
+	}
+	return false, fmt.Errorf("cannot tell the scratch-bit variant of this tree: %d rules, %d clear rules", len(out), n)
+}
+
 var markCfgs = []markCfg{
 	{0x80, 0x100, 0x800, 0x200, 0x400, 0xff000},
 	{0x10000, 0x20000, 0x100000, 0x40000, 0x80000, 0xffe00000},
@@ -587,6 +620,11 @@ func main() {
 	r := &rng{s: *seed*0x2545F4914F6CDD1D + 0xC08}
 	enc := json.NewEncoder(os.Stdout)
 	stats := map[string]int{}
+	var perr error
+	if treeFixed, perr = probeVariant(); perr != nil {
+		fmt.Fprintf(os.Stderr, "C08 driver: %v\n", perr)
+		os.Exit(3)
+	}
 	// corpus first: the minimal three-positive-block rule (scratch bit re-use), both flavours
 	for _, nft := range []bool{false, true} {
 		g, nsets := corpusThreeBlocks()
@@ -938,8 +976,8 @@ emit:
 		dk = "DenyReject"
 	}
 	cfgCoq := fmt.Sprintf("{| c_flavor := %s; c_accept := %d; c_pass := %d; c_drop := %d; c_scratch0 := %d; c_scratch1 := %d; "+
-		"c_flowlogs := %v; c_untracked := %v; c_deny := %s; c_log_limit := %v; c_fixed := true |}",
-		fl, mc.accept, mc.pass, mc.drop, mc.s0, mc.s1, flow, untracked, dk, logLimit)
+		"c_flowlogs := %v; c_untracked := %v; c_deny := %s; c_log_limit := %v; c_fixed := %v |}",
+		fl, mc.accept, mc.pass, mc.drop, mc.s0, mc.s1, flow, untracked, dk, logLimit, treeFixed)
 	var setsCoq []string
 	for id := range sets {
 		setsCoq = append(setsCoq, fmt.Sprintf("(%d, %s)", id, coqList(sets[id], member.coq)))
@@ -958,6 +996,11 @@ emit:
 		fmt.Sprintf("rules:%d", len(out))}
 	if len(out) == 0 {
 		tags = append(tags, "filtered-out")
+	}
+	if treeFixed {
+		tags = append(tags, "variant:scratch-bit-fixed")
+	} else {
+		tags = append(tags, "variant:scratch-bit-unfixed")
 	}
 	if g.notIcmp != nil && g.notIcmp.hasCode {
 		tags = append(tags, "not-icmp-type-code")
